@@ -303,7 +303,8 @@ class Parser:
 
     def expect(self, typ: str) -> TokenInfo | None:
         tok = self._tokenizer.peek()
-        if tok.string == typ:
+        # keywords and operators; text that merely reads like one (the literal part of an f-string, a macro argument) is not
+        if tok.string == typ and tok.type in (Token.NAME, Token.OP):
             return self._tokenizer.getnext()
         return None
 
